@@ -58,3 +58,11 @@ package rootmulti
 //@   modifies rs.traceContext, elems(rs.traceContext)
 //@   loop 1 invariant forall r int :: r != old(ref(rs.traceContext)) ==> Hm_Str_Iface[r] == old(Hm_Str_Iface[r]) && Hmp_Str_Iface[r] == old(Hmp_Str_Iface[r])
 //@   ensures dyntype(r) == typeid("*store/rootmulti.Store") && unbox(r, "*store/rootmulti.Store") == rs
+
+// C12: the multistore records the new pruning options and hands exactly those to every mounted substore
+//@ func (rs *Store) SetPruning(pruningOpts types.PruningOptions)
+//@   props C12
+//@   modifies rs.pruningOpts, sp.calls, sp.recent, sp.every
+//@   loop 1 invariant iterpos(1) >= 0 && sp.calls >= old(sp.calls) && (sp.calls > old(sp.calls) ==> sp.recent == pruningOpts.keepRecent && sp.every == pruningOpts.keepEvery) && rs.pruningOpts == pruningOpts
+//@   ensures [recorded] rs.pruningOpts == pruningOpts
+//@   ensures [propagated] sp.calls > old(sp.calls) ==> sp.recent == pruningOpts.keepRecent && sp.every == pruningOpts.keepEvery
